@@ -7,6 +7,18 @@ def storage_runs(prop, nq, nt, dq=2, dt=3):
         "thorough": [{"cmd": ["storage", "-prop", prop, "-n", str(nt), "-depth", str(dt)], "engine": "storage", "coq_sample": 200}],
     }
 
+def sched_run(cmd, prop, q, t, **kw):
+    return ({"cmd": [cmd, "-prop", prop] + q, **kw}, {"cmd": [cmd, "-prop", prop] + t, **kw})
+
+def two_tier(*pairs):
+    return {"quick": [p[0] for p in pairs], "thorough": [p[1] for p in pairs]}
+
+def st_pair(prop, nq, nt, dq=2, dt=3):
+    r = storage_runs(prop, nq, nt, dq, dt)
+    return (r["quick"][0], r["thorough"][0])
+
+GEN_NOTE = " Trusted: Coq kernel, extraction (ExtrOcamlBasic), the Go harness and the hook file."
+
 PROPS = {
     "C15": {
         "props": ["props/C15.v"],
@@ -15,11 +27,61 @@ PROPS = {
         "search": [{"cmd": ["storage", "-prop", "C15", "-n", "5000", "-depth", "3"]}],
         "trusted_base": STORAGE_TB,
         "level_text": "Machine-checked refinement: for every finite sequence of the storage calls (unbounded length, any identifiers, any fault positions, any commit orders) the Coq model of PersistentSlabStorage refines the pending-overlay specification (C15_refines_overlay and 6 companion theorems, all closed under the global context). The model is tied to storage.go by lock-step differential execution of every call of ~1900 (quick) / ~28000 (thorough) histories, including all sequences of length 2 (quick) or 3 (thorough) over a 20-letter alphabet, on the extracted model and on a vm_compute sample.",
-        "level_note": "Trusted: Coq kernel, extraction (ExtrOcamlBasic), the Go harness and the hook file; slabs are opaque values (codec = identity on values, discharged by C07's model); pointer aliasing of cached slab objects is outside the model.",
+        "level_note": "Slabs are opaque values (codec = identity on values, discharged by C07's model); pointer aliasing of cached slab objects is outside the model." + GEN_NOTE,
         "technique": "Coq proof (refinement by induction over operation sequences, std++ gmap) + lock-step correspondence with the Go implementation",
         "assumptions": ["in-place mutation of slab objects shared between cache, write set and handles is not expressible in the value-semantics model (see DESIGN 3); exercised by C08's schedules"],
+    },
+    "C14": {
+        "props": ["props/C14.v"],
+        "coq_module": "StorageTrace", "coq_check": "chk_storage",
+        "runs": two_tier(st_pair("C14", 800, 8000), sched_run("faults", "C14", ["-n", "100000", "-steps", "4000"], ["-n", "100000", "-steps", "100000"])),
+        "search": [{"cmd": ["faults", "-prop", "C14", "-n", "100000", "-steps", "20000"]}],
+        "trusted_base": STORAGE_TB,
+        "level_text": "Theorems over the storage model for EVERY commit kind, processing order and fault position: a failed commit preserves the view and every pending change is either still pending or durably written (C14_failed_commit_keeps_everything), the failing call is reported, and any number of failed attempts followed by one fault-free commit yields exactly the ledger and write set of a single fault-free commit (C14_retry_converges). Tie: lock-step storage histories with injected faults, plus container-level fault enumeration (every fault position of every commit of short array/map histories, workers 1/2/8, both commits, retries, byte comparison with a fault-free twin).",
+        "level_note": "Model = storage layer only (slabs opaque); container-level behaviour under faults is covered by the harness oracle, not by a theorem." + GEN_NOTE,
+        "technique": "Coq proof (invariant over commit attempts, pointwise characterisation of the committed state) + lock-step correspondence + fault enumeration on the implementation",
+    },
+    "C04": {
+        "props": ["props/C04_storage.v"],
+        "coq_module": "StorageTrace", "coq_check": "chk_storage",
+        "runs": two_tier(st_pair("C04", 600, 6000), sched_run("determinism", "C04", ["-n", "150", "-steps", "150"], ["-n", "2000", "-steps", "250"])),
+        "search": [{"cmd": ["determinism", "-prop", "C04", "-n", "600", "-steps", "200"]}],
+        "trusted_base": STORAGE_TB,
+        "level_text": "The model is a function of the history; proved: the deterministic commit issues its ledger calls in strictly ascending (owner,index) order also under faults (C04_write_order_sorted), the result does not depend on Go's map iteration order over the write set (C04_delta_iteration_order_irrelevant), on the arrival order of encoder-worker results for any worker count (C04_worker_arrival_order_irrelevant), and the order-relaxed commit produces the same registers for every order it can take (C04_relaxed_commit_same_registers). Tie: lock-step storage histories (call logs compared) and container-level twins: 16 configurations per history (workers 1..64, GOMAXPROCS 1/4/16, cache drops/reopen, relaxed commit) plus fresh OS processes, byte-identical registers required.",
+        "level_note": "PARTIAL by nature: dependence on process identity, goroutine scheduling and pool reuse cannot be exhibited by a functional model; it is exercised by the twin runs only. Seeds/extra-data de-duplication determinism is covered by C07's codec model." + GEN_NOTE,
+        "technique": "Coq proof (confluence of every order the Go code leaves open) + lock-step correspondence + twin executions on the implementation",
+    },
+    "C03": {
+        "props": ["props/C03_storage.v"],
+        "coq_module": "StorageTrace", "coq_check": "chk_storage",
+        "runs": two_tier(st_pair("C03", 600, 6000), sched_run("crash", "C03", ["-n", "500", "-steps", "200"], ["-n", "5000", "-steps", "300"])),
+        "search": [{"cmd": ["crash", "-prop", "C03", "-n", "1500", "-steps", "200"]}],
+        "trusted_base": STORAGE_TB,
+        "level_text": "Storage level theorems for every history: no storage call other than a commit changes the ledger (C03_writes_only_in_commit), a temporary-address slab is never in the ledger (C03_temp_never_written), a crash after a commit leaves the ledger as that commit left it (C03_crash), and after a successful commit a brand-new storage sees every owned slab as it was (C03_commit_durable_slabs). That every container mutation stores each slab it touched is part of the array model (write log compared call by call in C01/C05's lock-step). Tie: lock-step storage histories; container-level crash oracle: after every operation the ledger log must be empty, at every commit and crash point a fresh storage over a copy of the ledger must reopen every live root with the content of the last commit.",
+        "level_note": "PARTIAL: the link slab record <-> register bytes relies on the codec model (C07) for the slab shapes modelled there; map containers' store discipline is checked by the crash oracle only." + GEN_NOTE,
+        "technique": "Coq proof (ledger frame lemma per storage call, induction over histories) + lock-step correspondence + crash/reopen oracle on the implementation",
+    },
+    "C16": {
+        "props": ["props/C16_storage.v"],
+        "coq_module": "StorageTrace", "coq_check": "chk_storage",
+        "runs": two_tier(st_pair("C16", 400, 4000), sched_run("concurrent", "C16", ["-n", "16", "-steps", "150"], ["-n", "150", "-steps", "250"], race=True, timeout=2400)),
+        "trusted_base": STORAGE_TB,
+        "level_text": "Logic part proved: commit with any number of workers and any arrival order of their results equals the sequential commit, also under faults (C16_parallel_commit_eq_sequential); batch preload is independent of the order in which decoded slabs arrive (C16_preload_order_irrelevant). Runtime part exercised: harness built with the Go race detector; commits/preloads with 1..64 workers vs 1 worker (registers, cache key sets, errors), and groups of 4/16 goroutines each on its own storage vs the same histories alone, GOMAXPROCS 1/4/16, scheduling jitter.",
+        "level_note": "PARTIAL, explicitly: data-race freedom in the sense of the Go memory model and correct bracketing of pooled digesters/buffers are properties of executions; they are observed on the sampled schedules only (race detector + concurrent-vs-alone comparison), not proved." + GEN_NOTE,
+        "technique": "Coq proof of order-independence (permutation arguments) + race-detector build and concurrent-vs-sequential comparison on the implementation",
+    },
+    "C20": {
+        "props": ["props/C20.v"],
+        "coq_module": "HealthTrace", "coq_check": "chk_health",
+        "runs": {"quick": [{"cmd": ["health", "-prop", "C20", "-n", "40", "-steps", "300"], "engine": "health", "coq_sample": 2}],
+                 "thorough": [{"cmd": ["health", "-prop", "C20", "-n", "300", "-steps", "400", "-mode", "full"], "engine": "health", "coq_sample": 5, "timeout": 2400}]},
+        "search": [{"cmd": ["health", "-prop", "C20", "-n", "120", "-steps", "300", "-mode", "full"]}],
+        "trusted_base": ["model: coq/theories/Health.v (transcription of CheckStorageHealth incl. the repair for missing referenced slabs, and of GetAllChildReferences) over an abstract slab graph (slab -> references in order); the slab iterator and the flattening of ChildStorables through inlined children/wrappers are not modelled (the harness's own graph walk supplies the graph)"],
+        "level_text": "Soundness AND completeness of the health check proved for every slab graph and every iteration order (C20_sound, C20_complete), every single corruption of the four kinds is rejected (C20_corruptions, C20_rejects), GetAllChildReferences returns exactly the reachable present / broken references (C20_all_child_refs*). The pre-repair algorithm is refuted by a 2-slab witness (C20_sound_refuted_old = finding F1, fixed). Tie: healthy storages from random nested histories, then every slab x every corruption kind x deletion route; verdict and root set compared with the model and with the harness's own graph analysis.",
+        "level_note": "The walk-up loop of CheckStorageHealth has no cycle guard: on a reference cycle with a leaf hanging off it the Go function does not terminate (model: EFuel); outside the four corruption kinds of the property, recorded as an observation." + GEN_NOTE,
+        "technique": "Coq proof (soundness/completeness of the transcribed graph algorithm for all graphs and iteration orders) + lock-step correspondence on corrupted storages",
     },
 }
 
 NOT_APPLICABLE = {p: "not yet built in this revision (work in progress; see DESIGN.md section 6 build order)" for p in
-                  ["C01","C02","C03","C04","C05","C06","C07","C08","C09","C10","C11","C12","C13","C14","C16","C17","C18","C19","C20"]}
+                  ["C01","C02","C05","C06","C07","C08","C09","C10","C11","C12","C13","C17","C18","C19"]}
